@@ -46,6 +46,7 @@ def run(ctx, rep):
         if "Value" in impl:
             r7(prog, ev, rep, impl["Value"][0])
     r8(prog, ev, rep)
+    r9(prog, ev, rep, impl)
 
 
 def _strip_validation(prog, t):
@@ -473,3 +474,29 @@ def r8(prog, ev, rep):
         rep.check(b == want_logical and c == (not want_logical), "C10-R8", key, prog.loc_of(pc),
                   "logical" if want_logical else "value-typed",
                   "TestFunction::%s: logical=%s comparable=%s, expected logical=%s comparable=%s" % (vn, b, c, want_logical, not want_logical))
+
+
+# ------------------------------------------------------------------------------------------- R9
+def r9(prog, ev, rep, impl):
+    rep.rule("C10-R9", "a pattern is only ever compiled where match()/search() are evaluated: `Regex::new` (and the builder API) is "
+             "called from the regex implementation alone - in particular not while parsing, where a pattern that does not compile "
+             "would turn `LogicalFalse` (RFC 9535 2.4.6/2.4.7) into a rejected query")
+    rx_fns = set()
+    for v in ("Match", "Search"):
+        if impl and v in impl:
+            rx_fns.update(prog.family(impl[v][0]))
+    # helpers reachable only from the regex implementation count as part of it
+    reach_rx, _ = prog.reach(sorted(rx_fns)) if rx_fns else (set(), {})
+    n = 0
+    for p in sorted(prog.bodies):
+        if prog.is_expansion(p) or "::tests::" in p:
+            continue
+        for x in T.walk(prog.bodies[p]["thir"]["root"]):
+            if x.get("k") == "Call" and re.search(r"^regex::.*(Regex|RegexBuilder|RegexSet)(::<.*>)?::(new|build|with_size_limit)$|^regex::.*::Regex::new$", x.get("fn") or ""):
+                n += 1
+                inside = p in reach_rx or prog.owner_fn(p) in reach_rx
+                rep.check(inside, "C10-R9", "%s|Regex::new" % shared.rk(prog, ev, prog.owner_fn(p)), T.loc(x), "compiled inside the regex implementation",
+                          "`%s` compiles a pattern outside the evaluation of match()/search(): a pattern that does not compile is then an error "
+                          "of the whole query instead of `false` for that test" % prog.owner_fn(p))
+    if n == 0:
+        rep.unrecognised("C10-R9", "Regex::new", "-", "no call of Regex::new found")
